@@ -45,3 +45,17 @@ def extra(binary, build, tier, rng):
         specs.append(("choose", n, 0, samples_for("choose", n, 0, tier), rng.u64(), None, None))
         specs.append(("index", n, 0, samples_for("index", n, 0, tier), rng.u64(), None, None))
     yield from run_stat(binary, specs, "frequency-test-samples", build)
+    # exact preimage counts of the one draw behind index / choose / single(exact-size), by interval search over all 2^64 words
+    from .preimage_oracle import first_draw_counts
+    from .oracles import parse_ok
+    def pick(res):
+        f = parse_ok(res)
+        return None if f is None or f[0] == "none" else int(f[0])
+    ps = []
+    for ln in ((2, 3, 5, 6, 7, 10, (1 << 32) + 1, 3 << 62) if tier == "quick" else (2, 3, 5, 6, 7, 9, 10, 11, 13, 60, 641, (1 << 32) - 1, (1 << 32) + 1, (1 << 40) + 3, 3 << 62, (1 << 63) + 1)):
+        ps.append(("index(%d)" % ln, ln, 64, (lambda w, ln=ln: "index len=%d n=1 words=%d" % (ln, w)), pick, (lambda w1, w2, ln=ln: "index len=%d n=1 words=%d,%d" % (ln, w1, w2))))
+    for n in (3, 5, 7):
+        items = ",".join(map(str, range(n)))
+        ps.append(("choose(slice of %d)" % n, n, 64, (lambda w, items=items: "choose items=%s via=choose words=%d" % (items, w)), pick, (lambda w1, w2, items=items: "choose items=%s via=choose words=%d,%d" % (items, w1, w2))))
+        ps.append(("single(exact-size iterator of %d)" % n, n, 64, (lambda w, items=items: "single items=%s hint=exact words=%d" % (items, w)), pick))
+    yield from first_draw_counts(binary, build, rng, ps, "preimage-interval-probes")
